@@ -140,3 +140,20 @@ Section MachineSpec.
       sched = s1 ++ s2 /\ run s0 s1 = Some smid /\ in_flight smid t i /\
       In (LRead ob) (o_body o) /\ s_data smid ob = Some d /\ r = RVal (o_rd o d).
 End MachineSpec.
+
+(* ------------------------------------------------------------------------------------ *)
+(* register.Namespaced in general (Model/C20.v, part d) *)
+
+(* name is registered in namespace ns of the outer register obj *)
+Definition ns_present (s : @state nsmap nres) (obj ns name : string) : Prop :=
+  exists d inner v, s_data s obj = Some d /\ lookup ns d = Some inner /\ lookup name inner = Some v.
+
+(* the operation stored its name: in the namespace it found, or in the new one it created.  (The
+   other final results belong to paths the real code cannot take: the early-return path although
+   the namespace was missing, or a path without any call.) *)
+Definition ns_stored (r : @res nres) : Prop := r = RVal NFoundT \/ r = RVal NStored.
+
+(* a program of the general theorem: every operation is one of the three methods, executing some
+   path that passes the check-then-act shape on obj *)
+Definition ns_prog_ok (obj : string) (progs : list (list (@op nsmap nres))) : Prop :=
+  Forall (Forall (fun o => exists k body, o = ns_op k body /\ cta_ok obj body = true)) progs.
